@@ -6,11 +6,23 @@ and `_offset_` / `_bit_length_` / `_extent_`.
 
 Type JSON:  ["prim", n, kind] | ["void", n] | ["farr", T, cap] | ["varr", T, cap] | ["struct", [T..]] |
             ["union", [T..]] | ["delim", T, extent]          (kind: bool|uint|int|float|byte|utf8, "sat"/"trunc" suffix)
+Further case classes (same type JSON):
+  * pool  - several definitions that SHARE sub-objects (["ref", i] = the object of definition i: the same Python object
+            handed to several constructors, or one DSDL file referred to by several others), and a script of queries
+            on the definitions and their members in varied orders (aggregate first / member first / random; numerical
+            expansion as well as analytical queries; in constructor mode a definition is built at its first use, i.e.
+            possibly on top of objects that were already queried).  Every answer must be the Specification's value
+            of that type alone - whatever was built or asked before.
+  * prog  - query ["prog", plan, resp, plan2, flags]: ONE definition (optionally a service with response `resp`) in
+            which `_offset_` is evaluated several times: at the very start, before / after padding fields, constants,
+            comments, regular fields, around `---`, repeatedly after the last variant of a union, twice in one
+            expression; each evaluation must be the set of lengths of everything declared before that point.
 Oracle: an independent Python rendering of the Specification's layout rules into the node lists of suites/bls.py,
 evaluated with that suite's brute-force / sumset oracle.
 """
 from __future__ import annotations
 
+import json
 import math
 import random
 import shutil
@@ -179,6 +191,92 @@ def s_intrinsic(t, j: int, nodes: list) -> int:
     return len(nodes) - 1
 
 
+def section_of(st):
+    """(is_union, field list) of a structure / union, sealed or delimited."""
+    inner = st[1] if st[0] == "delim" else st
+    return inner[0] == "union", inner[1]
+
+
+def s_prog(st, plan: str) -> typing.Optional[typing.List[typing.List[int]]]:
+    """`_offset_` at every evaluation point of a definition `program` (see gen_prog): each value is the set of lengths
+    of everything declared before that point, padding fields included, constants / comments / directives not."""
+    out = []
+    j = 0
+    for ch in plan:
+        if ch == "f":
+            j += 1
+        elif ch in PROBE_CHARS:
+            inn: list = []
+            den = B.o_den(inn, s_intrinsic(st, j, inn), 4000, {})
+            if den is None:
+                return None
+            out.append(sorted(den))
+    return out
+
+
+def spec_answer(st, q, ctx: dict) -> typing.Tuple[bool, typing.Any]:
+    """What the Specification says about query `q` on the (valid, stripped) type `st`: (known, expected answer).
+    `ctx` caches the expression nodes of `st` between queries on the same type."""
+    if "nodes" not in ctx:
+        ctx["nodes"] = []
+        ctx["root"] = s_nodes(st, ctx["nodes"])
+        ctx["rm"] = {}
+    nodes, root, rm = ctx["nodes"], ctx["root"], ctx["rm"]
+    k = q[0]
+    if k == "align":
+        return True, s_align(st)
+    if k == "extent":
+        return True, st[2] if st[0] == "delim" else B.o_max(nodes, root)
+    if k == "min":
+        return True, B.o_min(nodes, root)
+    if k == "max":
+        return True, B.o_max(nodes, root)
+    if k == "fixed":
+        return True, B.o_min(nodes, root) == B.o_max(nodes, root)
+    if k == "mod":
+        return True, sorted(B.o_res(nodes, root, q[1], rm))
+    if k == "aligned":
+        return True, set(B.o_res(nodes, root, q[1], rm)) == {0}
+    if k == "expand":
+        den = B.o_den(nodes, root, 4000, {})
+        return (False, None) if den is None else (True, sorted(den))
+    if k == "lenbits":
+        return True, max(smallest_std(st[2]), s_align(st[1]))
+    if k == "tagbits":
+        fs = st[1] if st[0] == "union" else st[1][1]
+        return True, max(smallest_std(len(fs) - 1), 8)
+    if k == "hdrbits":
+        return True, 32
+    if k == "asserts":
+        return True, True
+    if k in ("offsets", "elemoffsets"):
+        on: list = []
+        offs = s_field_offsets(st, q[1], on) if k == "offsets" else s_elem_offsets(st, q[1], on)
+        om: dict = {}
+        return True, [{"min": B.o_min(on, o), "max": B.o_max(on, o), "mods": [sorted(B.o_res(on, o, d, om)) for d in q[2]]} for o in offs]
+    if k == "xoffsets":
+        on = []
+        offs = s_field_offsets(st, q[1], on)
+        dens = [B.o_den(on, o, 4000, {}) for o in offs]
+        return (False, None) if None in dens else (True, [sorted(d) for d in dens])
+    if k == "svc_intrinsic":
+        exp = []
+        for tt in (st, strip(q[2])):
+            inn2: list = []
+            den2 = B.o_den(inn2, s_intrinsic(tt, q[1], inn2), 4000, {})
+            exp.append(None if den2 is None else sorted(den2))
+        return (False, None) if None in exp else (True, exp)
+    if k == "intrinsic":
+        inn: list = []
+        den = B.o_den(inn, s_intrinsic(st, q[1], inn), 4000, {})
+        return (False, None) if den is None else (True, sorted(den))
+    if k == "prog":
+        a = s_prog(st, q[1])
+        b = [] if q[2] is None else s_prog(strip(q[2]), q[3])
+        return (False, None) if a is None or b is None else (True, [a, b])
+    return False, None
+
+
 def _cost(nodes, i, d):
     return B._cost(nodes, i, d, {})
 
@@ -333,9 +431,297 @@ def gen_lookalike_warm(rng, prop):
     return case
 
 
+# --- definition programs (C08): `_offset_` evaluated several times within ONE definition ------------------------
+# plan alphabet: f = the next field of the type (padding fields are fields), c = a constant, d = a comment line,
+# b = a blank line, p = `@print _offset_`, u = `@print _offset_ | _offset_` (two evaluations in one expression)
+PROBE_CHARS = "pu"
+
+
+def gen_small(rng, depth, defs=None, dsdl=True, elem=False, p_ref=0.4):
+    """A small member type (capacities <= 4, at most three fields) so that numerical expansion stays cheap.
+    `defs`: earlier definitions of a pool that may be referred to as ["ref", i] (shared objects)."""
+    if defs and rng.random() < p_ref:
+        cands = [i for i, d in enumerate(defs) if not (elem and dsdl and d[0] in ("farr", "varr"))]
+        if cands:
+            return ["ref", rng.choice(cands)]
+    if depth <= 0 or rng.random() < 0.4:
+        return gen_prim_field(rng)
+    kind = rng.choice(["farr", "varr", "varr", "struct", "union", "delim"])
+    if kind in ("farr", "varr") and elem and dsdl:
+        kind = rng.choice(["struct", "union"])
+    if kind in ("farr", "varr"):
+        if rng.random() < 0.5:
+            e = gen_prim(rng)
+            if e[2] == "utf8" and kind == "farr":
+                e = ["prim", 8, "byte"]
+        else:
+            e = gen_small(rng, depth - 1, defs, dsdl, elem=True, p_ref=p_ref)
+        return [kind, e, rng.choice([1, 2, 2, 3, 4])]
+    return gen_small_comp(rng, depth, defs, dsdl, kind, p_ref)
+
+
+def gen_small_comp(rng, depth, defs, dsdl, kind, p_ref=0.4, pad=0.15):
+    ik = rng.choice(["struct", "struct", "union"]) if kind == "delim" else kind
+    if ik == "union":
+        fs = [gen_small(rng, depth - 1, defs, dsdl, p_ref=p_ref) for _ in range(rng.choice([2, 2, 3]))]
+    else:
+        fs = []
+        for _ in range(rng.choice([0, 1, 2, 2, 3])):
+            fs.append(["void", rng.choice([1, 3, 4, 5, 7, 8, 13])] if rng.random() < pad else gen_small(rng, depth - 1, defs, dsdl, p_ref=p_ref))
+    inner = [ik, fs]
+    if kind != "delim":
+        return inner
+    try:
+        st = strip(resolve_refs(defs or [], inner))
+        nodes: list = []
+        mx = B.o_max(nodes, s_nodes(st, nodes)) if s_valid(st) else 64
+    except Exception:
+        mx = 64
+    return ["delim", inner, -(-mx // 8) * 8 + rng.choice([0, 0, 8, 16, 64])]
+
+
+def gen_prog_comp(rng):
+    """The body of a definition program: a padding-rich structure (or a union), sealed or delimited."""
+    if rng.random() < 0.25:
+        inner = ["union", [gen_small(rng, 1) for _ in range(rng.choice([2, 2, 3, 4]))]]
+    else:
+        fs = []
+        for _ in range(rng.choice([1, 2, 3, 3, 4, 5, 6])):
+            x = rng.random()
+            if x < 0.35:
+                fs.append(["void", rng.choice([1, 2, 3, 4, 5, 7, 8, 12, 16, 32, rng.randint(1, 64)])])
+            elif x < 0.75:
+                fs.append(gen_prim_field(rng))
+            else:
+                fs.append(gen_small(rng, 2))
+        inner = ["struct", fs]
+    if rng.random() < 0.75:
+        return inner
+    try:
+        nodes: list = []
+        mx = B.o_max(nodes, s_nodes(strip(inner), nodes))
+    except Exception:
+        return inner
+    return ["delim", inner, -(-mx // 8) * 8 + rng.choice([0, 8, 64])]
+
+
+def gen_plan(rng, t) -> str:
+    is_union, fs = section_of(t)
+    filler = lambda: rng.choice(["c", "c", "d", "b"])  # noqa: E731
+    probe = lambda: "u" if rng.random() < 0.12 else "p"  # noqa: E731
+    plan: typing.List[str] = []
+    if is_union:
+        # `_offset_` of a union is defined after its last variant only
+        for _ in fs:
+            if rng.random() < 0.2:
+                plan.append(filler())
+            plan.append("f")
+        for _ in range(rng.choice([1, 2, 3, 4])):
+            plan.append(probe())
+            if rng.random() < 0.4:
+                plan.append(filler())
+        return "".join(plan)
+    for i in range(len(fs) + 1):
+        if rng.random() < 0.65:
+            plan.append(probe())
+        if rng.random() < 0.25:
+            plan.append(filler())
+            if rng.random() < 0.5:
+                plan.append(probe())
+        if i < len(fs):
+            plan.append("f")
+    while sum(plan.count(c) for c in PROBE_CHARS) < 2:
+        plan.insert(rng.randint(0, len(plan)), probe())
+    return "".join(plan)
+
+
+def plan_ok(t, plan) -> bool:
+    st = strip(t)
+    j = 0
+    for ch in plan:
+        if ch == "f":
+            j += 1
+        elif ch in PROBE_CHARS:
+            inn: list = []
+            if not _expand_ok(inn, s_intrinsic(st, j, inn)):
+                return False
+    return True
+
+
+def gen_prog(rng, prop):
+    for _ in range(30):
+        t = gen_prog_comp(rng)
+        st = strip(t)
+        if not s_valid(st) or nested_arrays(st):
+            continue
+        plan = gen_plan(rng, t)
+        if not plan_ok(t, plan):
+            continue
+        resp, plan2 = None, ""
+        if rng.random() < 0.4:  # a service: the response section starts from scratch after `---`
+            resp = gen_prog_comp(rng)
+            plan2 = gen_plan(rng, resp)
+            if not s_valid(strip(resp)) or nested_arrays(strip(resp)) or not plan_ok(resp, plan2):
+                continue
+        case = make_queries(rng, t, prop)
+        if case is None:
+            continue
+        case["qs"] = [q for q in case["qs"] if q[0] != "svc_intrinsic"][:8]
+        # flag n: the composite members' own definitions evaluate `_offset_` too (nested builders, between two evaluations here)
+        case["qs"].append(["prog", plan, resp, plan2, "n" if rng.random() < 0.5 else ""])
+        return case
+    return None
+
+
+# --- pools of types that SHARE sub-objects, queried in a script (C02: a type's layout does not depend on history) ---
+
+
+def resolve_refs(defs, t):
+    k = t[0]
+    if k == "ref":
+        return resolve_refs(defs, defs[t[1]])
+    if k in ("prim", "void"):
+        return t
+    if k in ("farr", "varr", "delim"):
+        return [k, resolve_refs(defs, t[1]), t[2]]
+    return [k, [resolve_refs(defs, f) for f in t[1]]] + list(t[2:])
+
+
+def walk(t, path):
+    """Member of the (resolved) type `t`: a field index descends into a composite, anything into an array's element."""
+    for k in path:
+        if t[0] in ("farr", "varr"):
+            t = t[1]
+        else:
+            t = section_of(t)[1][k]
+    return t
+
+
+def pool_targets(rdefs):
+    out = []
+    for i, d in enumerate(rdefs):
+        out.append([i])
+        if d[0] in ("farr", "varr"):
+            subs = [[i, 0]]
+        else:
+            subs = [[i, k] for k, f in enumerate(section_of(d)[1]) if f[0] != "void"][:4]
+        for pth in subs:
+            out.append(pth)
+            m = walk(d, pth[1:])
+            if m[0] in ("farr", "varr") and m[1][0] != "prim":
+                out.append(pth + [0])
+    return out
+
+
+def gen_pool(rng, prop):
+    dsdl = rng.random() < 0.35
+    defs: list = []
+    for i in range(rng.choice([2, 2, 3, 3, 4])):
+        for _ in range(20):
+            if dsdl or rng.random() < 0.75:
+                t = gen_small_comp(rng, rng.choice([1, 2, 2, 3]), defs, dsdl, rng.choice(["struct", "struct", "union", "union", "delim"]),
+                                   p_ref=0.5 if defs else 0.0, pad=0.1)
+            else:
+                t = gen_small(rng, 2, defs, dsdl, p_ref=0.5)
+                if t[0] not in ("farr", "varr"):
+                    continue
+            st = strip(resolve_refs(defs, t))
+            try:
+                ok = s_valid(st) and not (dsdl and nested_arrays(st))
+                nodes: list = []
+                ok = ok and _cost(nodes, s_nodes(st, nodes), 8) <= MOD_BUDGET
+            except Exception:
+                ok = False
+            if ok:
+                defs.append(t)
+                break
+        else:
+            return None
+    rdefs = [resolve_refs(defs, d) for d in defs]
+    targets = pool_targets(rdefs)
+    info = {}
+    for pth in targets:
+        st = strip(walk(rdefs[pth[0]], pth[1:]))
+        nodes = []
+        root = s_nodes(st, nodes)
+        info[tuple(pth)] = (st, nodes, root, _expand_ok(nodes, root))
+
+    def rand_q(pth, numeric):
+        st, nodes, root, xok = info[tuple(pth)]
+        comp = st[0] in ("struct", "union", "delim")
+        for _ in range(8):
+            k = rng.choice(["expand", "expand", "expand", "xoffsets"] if numeric else
+                           ["expand", "mod", "mod", "min", "max", "extent", "align", "fixed", "aligned", "offsets", "xoffsets", "asserts"])
+            if k == "expand" and xok:
+                return ["expand"]
+            if k in ("mod", "aligned"):
+                d = rng.choice([8, 8, 32, 1, 2, 3, 5, 7, 16, 64, rng.randint(1, 40)])
+                if _cost(nodes, root, d) <= MOD_BUDGET:
+                    return [k, d]
+            if k in ("min", "max", "extent", "align", "fixed", "asserts"):
+                return [k]
+            if k in ("offsets", "xoffsets") and comp:
+                base = dedup_list(gen_base(rng))
+                divs = dedup_list([8, rng.choice([1, 2, 3, 7, 16, 32])])
+                on: list = []
+                offs = s_field_offsets(st, base, on)
+                if k == "offsets" and all(_cost(on, o, d) <= MOD_BUDGET for o in offs for d in divs):
+                    return ["offsets", base, divs]
+                if k == "xoffsets" and len(offs) <= 6 and all(_expand_ok(on, o) for o in offs):
+                    return ["xoffsets", base]
+        return ["max"]
+
+    aggs = [[i] for i in range(len(defs) - 1, -1, -1)]
+    members = [p for p in targets if len(p) > 1]
+    rng.shuffle(members)
+    style = rng.choice(["aggregate-first", "aggregate-first", "member-first", "random"])
+    script: list = []
+    if style == "random":
+        for _ in range(rng.randint(4, 12)):
+            pth = rng.choice(targets)
+            script.append([pth, rand_q(pth, rng.random() < 0.4)])
+    else:
+        first = aggs[: rng.randint(1, len(aggs))] if style == "aggregate-first" else members[:3]
+        then = (members[:4] + aggs[::-1][:2]) if style == "aggregate-first" else aggs[: rng.randint(1, len(aggs))]
+        for pth in first:
+            script.append([pth, rand_q(pth, rng.random() < 0.7)])
+            if rng.random() < 0.3:
+                script.append([pth, rand_q(pth, False)])
+        for pth in then:
+            script.append([pth, rand_q(pth, rng.random() < 0.7)])
+        # afterwards: everything not touched yet (in constructor mode these are types BUILT after the queries above),
+        # then re-checks of what was asked before
+        touched = {p[0] for p, _ in script}
+        for i in range(len(defs)):
+            if i not in touched:
+                script.append([[i], rand_q([i], rng.random() < 0.6)])
+        for _ in range(rng.randint(1, 3)):
+            pth = rng.choice(targets)
+            script.append([pth, rand_q(pth, rng.random() < 0.5)])
+    script = script[:16]
+    probe = []
+    if dsdl:
+        for i, d in enumerate(rdefs):
+            inn: list = []
+            st = strip(d)
+            if rng.random() < 0.5 and _expand_ok(inn, s_intrinsic(st, len(section_of(st)[1]), inn)):
+                probe.append(i)
+    return {"ty": rdefs[-1], "qs": [["align"], ["max"]],
+            "pool": {"mode": "dsdl" if dsdl else "ctor", "style": style, "defs": defs, "probe": probe, "script": script}}
+
+
 def gen_case(rng, prop):
-    if rng.random() < 0.06:
+    x = rng.random()
+    if x < 0.06:
         c = gen_lookalike_warm(rng, prop)
+        if c is not None:
+            return c
+    elif x < 0.06 + (0.16 if prop == "C02" else 0.08):
+        c = gen_pool(rng, prop)
+        if c is not None:
+            return c
+    elif x < 0.22 + (0.16 if prop == "C08" else 0.08):
+        c = gen_prog(rng, prop)
         if c is not None:
             return c
     for _ in range(50):
@@ -420,9 +806,12 @@ class _Names:
         return "T%d" % self.n
 
 
-def build_impl(pydsdl, t, names: _Names):
+def build_impl(pydsdl, t, names: _Names, refs=None):
+    """`refs(i)`: the (already built, shared) object of pool definition i for ["ref", i]."""
     k = t[0]
     CM = pydsdl.PrimitiveType.CastMode
+    if k == "ref":
+        return refs(t[1])
     if k == "prim":
         kind = t[2]
         cm = CM.TRUNCATED if kind.endswith("trunc") else CM.SATURATED
@@ -440,13 +829,13 @@ def build_impl(pydsdl, t, names: _Names):
     if k == "void":
         return pydsdl.VoidType(t[1])
     if k == "farr":
-        return pydsdl.FixedLengthArrayType(build_impl(pydsdl, t[1], names), t[2])
+        return pydsdl.FixedLengthArrayType(build_impl(pydsdl, t[1], names, refs), t[2])
     if k == "varr":
-        return pydsdl.VariableLengthArrayType(build_impl(pydsdl, t[1], names), t[2])
+        return pydsdl.VariableLengthArrayType(build_impl(pydsdl, t[1], names, refs), t[2])
     if k in ("struct", "union"):
         attrs = []
         for i, f in enumerate(t[1]):
-            ft = build_impl(pydsdl, f, names)
+            ft = build_impl(pydsdl, f, names, refs)
             if f[0] == "void":
                 attrs.append(pydsdl.PaddingField(ft))
             else:
@@ -457,7 +846,7 @@ def build_impl(pydsdl, t, names: _Names):
         return cls(name="ns." + names.fresh(), version=pydsdl.Version(1, 0), attributes=attrs, deprecated=False,
                    fixed_port_id=None, source_file_path=Path("/nonexistent/ns/X.1.0.dsdl"), has_parent_service=False)
     if k == "delim":
-        return pydsdl.DelimitedType(build_impl(pydsdl, t[1], names), t[2])
+        return pydsdl.DelimitedType(build_impl(pydsdl, t[1], names, refs), t[2])
     raise ValueError(k)
 
 
@@ -465,9 +854,13 @@ def summarize(b, divs):
     return {"min": b.min, "max": b.max, "mods": [sorted(b % d) for d in divs]}
 
 
-def dsdl_type_text(t, deps: dict, names: _Names) -> str:
-    """DSDL spelling of a type; composites become dependency files ns/<Name>.1.0.dsdl collected in `deps`."""
+def dsdl_type_text(t, deps: dict, names: _Names, dep_eval: bool = False) -> str:
+    """DSDL spelling of a type; composites become dependency files ns/<Name>.1.0.dsdl collected in `deps`.
+    `dep_eval`: the dependencies evaluate `_offset_` themselves (silently, in an always-true @assert) - they are parsed
+    when first referred to, i.e. in the middle of the referring definition."""
     k = t[0]
+    if k == "ref":
+        return "ns.D%d.1.0" % t[1]
     if k == "prim":
         kind = t[2]
         if kind in ("bool", "byte", "utf8"):
@@ -478,15 +871,15 @@ def dsdl_type_text(t, deps: dict, names: _Names) -> str:
     if k == "void":
         return "void%d" % t[1]
     if k == "farr":
-        return "%s[%d]" % (dsdl_type_text(t[1], deps, names), t[2])
+        return "%s[%d]" % (dsdl_type_text(t[1], deps, names, dep_eval), t[2])
     if k == "varr":
-        return "%s[<=%d]" % (dsdl_type_text(t[1], deps, names), t[2])
+        return "%s[<=%d]" % (dsdl_type_text(t[1], deps, names, dep_eval), t[2])
     name = names.fresh()
-    deps[name] = dsdl_def_text(t, deps, names, [])
+    deps[name] = dsdl_def_text(t, deps, names, [], dep_eval)
     return "ns.%s.1.0" % name
 
 
-def dsdl_def_text(t, deps, names, probes) -> str:
+def dsdl_def_text(t, deps, names, probes, dep_eval: bool = False) -> str:
     ext = None
     if t[0] == "delim":
         ext = t[2]
@@ -497,10 +890,14 @@ def dsdl_def_text(t, deps, names, probes) -> str:
     for i, f in enumerate(t[1]):
         if i in probes:
             lines.append("@print _offset_")
-        ft = dsdl_type_text(f, deps, names)
+        ft = dsdl_type_text(f, deps, names, dep_eval)
         lines.append(ft if f[0] == "void" else "%s f%d" % (ft, i))
     if len(t[1]) in probes:
         lines.append("@print _offset_")
+    if dep_eval and not probes:
+        inn: list = []
+        if _expand_ok(inn, s_intrinsic(strip(t), len(t[1]), inn)):
+            lines.append("@assert _offset_ % 1 == {0}")
     for ci in range(t[2] if len(t) > 2 else 0):
         lines.append("uint8 C%d = %d" % (ci, ci % 256))
     lines.append("@sealed" if ext is None else "@extent %d" % ext)
@@ -560,6 +957,153 @@ def svc_intrinsic_impl(pydsdl, t, j, resp):
         return [parse_set(prints[0]), parse_set(prints[1])]
     finally:
         shutil.rmtree(d, ignore_errors=True)
+
+
+def prog_def_text(t, plan, deps, names, dep_eval=False) -> str:
+    """One definition section with the statements of `plan` (see gen_plan) around the fields of `t`."""
+    ext = None
+    if t[0] == "delim":
+        ext = t[2]
+        t = t[1]
+    lines = []
+    if t[0] == "union":
+        lines.append("@union")
+    i = ci = 0
+    for ch in plan:
+        if ch == "f":
+            f = t[1][i]
+            ft = dsdl_type_text(f, deps, names, dep_eval)
+            lines.append(ft if f[0] == "void" else "%s f%d" % (ft, i))
+            i += 1
+        elif ch == "c":
+            lines.append("uint8 C%d = %d" % (ci, ci % 256))
+            ci += 1
+        elif ch == "p":
+            lines.append("@print _offset_")
+        elif ch == "u":
+            lines.append("@print _offset_ | _offset_")
+        elif ch == "d":
+            lines.append("# note")
+        else:
+            lines.append("")
+    assert i == len(t[1]), "plan does not place every field"
+    lines.append("@sealed" if ext is None else "@extent %d" % ext)
+    return "\n".join(lines) + "\n"
+
+
+def prog_impl(pydsdl, t, plan, resp, plan2, flags=""):
+    """Every `_offset_` evaluation of a definition program, in order: [request section values, response section values]."""
+    names = _Names()
+    deps: dict = {}
+    d = Path(tempfile.mkdtemp(prefix="verif_layout_"))
+    try:
+        (d / "ns").mkdir()
+        text = prog_def_text(t, plan, deps, names, "n" in flags)
+        if resp is not None:
+            text += "---\n" + prog_def_text(resp, plan2, deps, names, "n" in flags)
+        for n, tx in deps.items():
+            (d / "ns" / ("%s.1.0.dsdl" % n)).write_text(tx)
+        (d / "ns" / "Prog.1.0.dsdl").write_text(text)
+        prints: list = []
+        pydsdl.read_files([d / "ns" / "Prog.1.0.dsdl"], [d / "ns"], [], print_output_handler=lambda p, l, s: prints.append(s))
+        n1 = sum(plan.count(c) for c in PROBE_CHARS)
+        n2 = sum(plan2.count(c) for c in PROBE_CHARS) if resp is not None else 0
+        if len(prints) != n1 + n2:
+            return "prints:%r" % (prints,)
+        vals = [parse_set(x) for x in prints]
+        return [vals[:n1], vals[n1:]]
+    finally:
+        shutil.rmtree(d, ignore_errors=True)
+
+
+def walk_impl(obj, t, path):
+    for k in path:
+        if t[0] in ("farr", "varr"):
+            obj, t = obj.element_type, t[1]
+        else:
+            obj, t = obj.fields[k].data_type, section_of(t)[1][k]
+    return obj
+
+
+def pool_impl(suite, pydsdl, pool) -> list:
+    """Run the script of a pool: one answer per step, then (DSDL mode) the `_offset_` printed at the end of the probed
+    definitions.  Constructor mode builds a definition at its first use (so later steps build NEW types on top of objects
+    that were already queried); DSDL mode reads the whole namespace first (nested composites are shared objects)."""
+    defs = pool["defs"]
+    rdefs = [resolve_refs(defs, x) for x in defs]
+    tail: list = []
+    if pool["mode"] == "ctor":
+        names = _Names()
+        built: dict = {}
+
+        def get(i):
+            if i not in built:
+                built[i] = build_impl(pydsdl, defs[i], names, get)
+            return built[i]
+    else:
+        names = _Names()
+        deps: dict = {}
+        d = Path(tempfile.mkdtemp(prefix="verif_layout_"))
+        try:
+            (d / "ns").mkdir()
+            for i, t in enumerate(defs):
+                nf = len(section_of(t)[1])
+                deps["D%d" % i] = dsdl_def_text(t, deps, names, [nf] if i in pool["probe"] else [])
+            for n, tx in deps.items():
+                (d / "ns" / ("%s.1.0.dsdl" % n)).write_text(tx)
+            prints: dict = {}
+            try:
+                types = {x.short_name: x for x in pydsdl.read_namespace(d / "ns", [], print_output_handler=lambda p, l, s: prints.__setitem__(Path(p).name.split(".")[0], s))}
+            except Exception as ex:
+                raise RuntimeError("reading the namespace raised %s: %s" % (type(ex).__name__, str(ex)[:200])) from None
+            for i in pool["probe"]:
+                try:
+                    tail.append(parse_set(prints["D%d" % i]))
+                except Exception as ex:
+                    tail.append("exc:%s" % type(ex).__name__)
+        finally:
+            shutil.rmtree(d, ignore_errors=True)
+
+        def get(i):
+            return types["D%d" % i]
+    out: list = []
+    for pth, q in pool["script"]:
+        try:
+            obj = walk_impl(get(pth[0]), rdefs[pth[0]], pth[1:])
+            out.append(suite.ask(pydsdl, obj, None, q, {}))
+        except pydsdl.InvalidDefinitionError as ex:
+            out.append("rejected:%s" % type(ex).__name__)
+        except Exception as ex:
+            out.append("exc:%s" % type(ex).__name__)
+    return out + tail
+
+
+def pool_steps(pool) -> list:
+    """(description, stripped resolved type, query) of every answer pool_impl gives, in the same order."""
+    rdefs = [resolve_refs(pool["defs"], x) for x in pool["defs"]]
+    steps = [("definition %d member path %s" % (pth[0], pth[1:]), strip(walk(rdefs[pth[0]], pth[1:])), q) for pth, q in pool["script"]]
+    for i in pool["probe"]:
+        st = strip(rdefs[i])
+        steps.append(("`_offset_` at the end of definition %d" % i, st, ["intrinsic", len(section_of(st)[1])]))
+    return steps
+
+
+def pool_oracle(pool, impl) -> typing.Optional[str]:
+    """A type's layout is a function of the type alone: whatever was built or queried before (other types sharing
+    sub-objects with it, in any order), every answer must be the Specification's."""
+    sout = impl.get("sout")
+    steps = pool_steps(pool)
+    if isinstance(sout, str):
+        return "history: the pool of valid definitions could not be built / read (%s)" % sout
+    if not isinstance(sout, list) or len(sout) != len(steps):
+        return "history: outcome has %s answers for %d steps" % (None if not isinstance(sout, list) else len(sout), len(steps))
+    ctxs: dict = {}
+    for n, ((what, st, q), a) in enumerate(zip(steps, sout)):
+        known, exp = spec_answer(st, q, ctxs.setdefault(json.dumps(st), {}))
+        if known and a != exp:
+            return "history step %d (query '%s' %s on %s, %s, after %d earlier steps on types sharing sub-objects): implementation answered %s, the Specification's layout gives %s" % (
+                n, q[0], q[1:], what, B._short(st), n, B._short(a), B._short(exp))
+    return None
 
 
 def parse_set(s: str) -> typing.List[int]:
@@ -655,7 +1199,13 @@ class LayoutSuite(common.Suite):
                 out.append(self.ask(pydsdl, ty, t, q, intr_res))
             except Exception as ex:
                 out.append("exc:%s" % type(ex).__name__)
-        return {"res": "ok", "out": out}
+        res = {"res": "ok", "out": out}
+        if "pool" in case:
+            try:
+                res["sout"] = pool_impl(self, pydsdl, case["pool"])
+            except Exception as ex:
+                res["sout"] = "exc:%s: %s" % (type(ex).__name__, str(ex)[:200])
+        return res
 
     def ask(self, pydsdl, ty, t, q, intr_res):
         k = q[0]
@@ -704,6 +1254,10 @@ class LayoutSuite(common.Suite):
             if idx != list(range(ty.capacity)):
                 return "elements-not-in-order"
             return res
+        if k == "xoffsets":
+            return [sorted(o) for _, o in ty.iterate_fields_with_offsets(pydsdl.BitLengthSet(q[1]))]
+        if k == "prog":
+            return prog_impl(pydsdl, t, q[1], q[2], q[3], q[4] if len(q) > 4 else "")
         if k == "svc_intrinsic":
             return svc_intrinsic_impl(pydsdl, t, q[1], q[2])
         if k == "intrinsic":
@@ -724,7 +1278,11 @@ class LayoutSuite(common.Suite):
 
     def model_case(self, case):
         qs = [[q[0], q[1], strip(q[2])] if q[0] == "svc_intrinsic" else q for q in case["qs"]]
-        return {"id": case["id"], "ty": strip(case["ty"]), "qs": qs}
+        qs = [[q[0], q[1], None if q[2] is None else strip(q[2])] + q[3:] if q[0] == "prog" else q for q in qs]
+        mc = {"id": case["id"], "ty": strip(case["ty"]), "qs": qs}
+        if "pool" in case:
+            mc["script"] = [[st, q] for _, st, q in pool_steps(case["pool"])]
+        return mc
 
     def compare(self, case, impl, model, prop):
         if impl.get("res") != model.get("res"):
@@ -736,6 +1294,9 @@ class LayoutSuite(common.Suite):
                 continue
             if a != b:
                 return "query %s: impl=%s model=%s" % (q, B._short(a), B._short(b))
+        if "pool" in case:
+            if impl.get("sout") != model.get("sout"):
+                return "history answers: impl=%s model=%s" % (B._short(impl.get("sout")), B._short(model.get("sout")))
         return None
 
     def oracle(self, case, impl, prop):
@@ -747,80 +1308,61 @@ class LayoutSuite(common.Suite):
             return None if impl["res"] == "rejected" else "type violating the layout rules was accepted: %s" % (st,)
         if impl["res"] != "ok":
             return "valid type rejected (%s): %s" % (impl.get("soft_cls"), st)
-        nodes: list = []
-        root = s_nodes(st, nodes)
-        rm: dict = {}
+        ctx: dict = {}
+        if len(impl.get("out", [])) != len(case["qs"]):
+            return "implementation outcome has %d answers for %d queries" % (len(impl.get("out", [])), len(case["qs"]))
         for q, a in zip(case["qs"], impl["out"]):
-            k = q[0]
-            exp: typing.Any
             if a == "skipped":
                 continue
-            if k == "align":
-                exp = s_align(st)
-            elif k == "extent":
-                exp = st[2] if st[0] == "delim" else B.o_max(nodes, root)
-            elif k == "min":
-                exp = B.o_min(nodes, root)
-            elif k == "max":
-                exp = B.o_max(nodes, root)
-            elif k == "fixed":
-                exp = B.o_min(nodes, root) == B.o_max(nodes, root)
-            elif k == "mod":
-                exp = sorted(B.o_res(nodes, root, q[1], rm))
-            elif k == "aligned":
-                exp = set(B.o_res(nodes, root, q[1], rm)) == {0}
-            elif k == "expand":
-                den = B.o_den(nodes, root, 4000, {})
-                if den is None:
-                    continue
-                exp = sorted(den)
-            elif k == "lenbits":
-                exp = max(smallest_std(st[2]), s_align(st[1]))
-            elif k == "tagbits":
-                fs = st[1] if st[0] == "union" else st[1][1]
-                exp = max(smallest_std(len(fs) - 1), 8)
-            elif k == "hdrbits":
-                exp = 32
-            elif k == "asserts":
-                exp = True
-            elif k in ("offsets", "elemoffsets"):
-                on: list = []
-                offs = s_field_offsets(st, q[1], on) if k == "offsets" else s_elem_offsets(st, q[1], on)
-                om: dict = {}
-                exp = [{"min": B.o_min(on, o), "max": B.o_max(on, o), "mods": [sorted(B.o_res(on, o, d, om)) for d in q[2]]} for o in offs]
-            elif k == "svc_intrinsic":
-                exp = []
-                for tt in (st, strip(q[2])):
-                    inn2: list = []
-                    den2 = B.o_den(inn2, s_intrinsic(tt, q[1], inn2), 4000, {})
-                    exp.append(None if den2 is None else sorted(den2))
-                if None in exp:
-                    continue
-            elif k == "intrinsic":
-                inn: list = []
-                i = s_intrinsic(st, q[1], inn)
-                den = B.o_den(inn, i, 4000, {})
-                if den is None:
-                    continue
-                exp = sorted(den)
-            else:
-                continue
-            if a != exp:
+            known, exp = spec_answer(st, q, ctx)
+            if known and a != exp:
                 return "query %s on %s: implementation answered %s, the Specification's layout gives %s" % (q, B._short(st), B._short(a), B._short(exp))
-        # structural facts of C02: every length is a multiple of the alignment; composites are byte aligned
+        if "pool" in case:
+            return pool_oracle(case["pool"], impl)
         return None
 
     def signature(self, case, desc, prop):
         if desc.startswith("query"):
             return "layout/wrong-answer/" + desc.split("'")[1]
+        if desc.startswith("history step"):
+            return "layout/history/" + desc.split("'")[1]
+        if desc.startswith("history:"):
+            return "layout/history/pool-not-built"
         return "layout/" + desc.split(":")[0].split("(")[0].strip()[:50]
 
     def shrink(self, case):
         t = case["ty"]
         qs = case["qs"]
+        if "pool" in case:
+            pool = case["pool"]
+            sc = pool["script"]
+            for i in range(len(sc)):
+                if len(sc) > 1:
+                    yield {"ty": t, "qs": qs, "pool": dict(pool, script=sc[:i] + sc[i + 1:])}
+            for i in pool["probe"]:
+                yield {"ty": t, "qs": qs, "pool": dict(pool, probe=[x for x in pool["probe"] if x != i])}
+            last = len(pool["defs"]) - 1
+            if last > 0 and last not in pool["probe"] and all(p[0] != last for p, _ in sc):
+                defs2 = pool["defs"][:last]
+                yield {"ty": resolve_refs(defs2, defs2[-1]), "qs": qs, "pool": dict(pool, defs=defs2)}
+            return
         for i in range(len(qs)):
             if len(qs) > 1:
                 yield {"ty": t, "qs": qs[:i] + qs[i + 1:]}
+        for i, q in enumerate(qs):
+            if q[0] != "prog":
+                continue
+            if q[2] is not None:
+                yield {"ty": t, "qs": qs[:i] + [["prog", q[1], None, ""] + q[4:]] + qs[i + 1:]}
+            if len(q) > 4 and q[4]:
+                yield {"ty": t, "qs": qs[:i] + [q[:4] + [""]] + qs[i + 1:]}
+            for which in (1, 3):
+                plan = q[which]
+                for c in range(len(plan)):
+                    if plan[c] != "f":
+                        q2 = list(q)
+                        q2[which] = plan[:c] + plan[c + 1:]
+                        yield {"ty": t, "qs": qs[:i] + [q2] + qs[i + 1:]}
         for t2 in shrink_ty(t):
             c = make_queries_for_shrunk(t2, qs)
             if c is not None:
@@ -833,10 +1375,106 @@ class LayoutSuite(common.Suite):
             yield "has:" + k
         for q in case["qs"]:
             yield "q:" + q[0]
+            if q[0] == "prog":
+                yield from prog_features(case["ty"], q)
         yield "depth:%d" % tdepth(case["ty"])
+        if "warm" in case:
+            yield "class:lookalike-warm"
+        if "pool" in case:
+            yield from pool_features(case["pool"])
 
     def nontrivial(self, case, impl):
         return impl.get("res") == "ok" and len(case["qs"]) > 0 and tdepth(case["ty"]) >= 1
+
+
+def prog_features(t, q):
+    """Which `_offset_` evaluation patterns a definition program contains."""
+    sections = [(t, q[1])] + ([(q[2], q[3])] if q[2] is not None else [])
+    yield "prog:service" if q[2] is not None else "prog:message"
+    if len(q) > 4 and "n" in q[4] and any(k in ("struct", "union", "delim") for f in section_of(t)[1] for k in kinds(f)):
+        yield "prog:members-evaluate-offset-too"
+    for sec, plan in sections:
+        is_union, fs = section_of(sec)
+        n = sum(plan.count(c) for c in PROBE_CHARS)
+        yield "prog:section-union" if is_union else "prog:section-struct"
+        yield "prog:evaluations=%s" % (n if n < 4 else "4+")
+        if plan and plan[0] in PROBE_CHARS:
+            yield "prog:probe-at-start"
+        if plan and plan[-1] in PROBE_CHARS:
+            yield "prog:probe-at-end"
+        if "u" in plan:
+            yield "prog:two-evaluations-in-one-expression"
+        # what lies between two consecutive evaluations
+        i = 0
+        last = None
+        between: typing.List[str] = []
+        for ch in plan:
+            if ch in PROBE_CHARS:
+                if last is not None:
+                    kinds_ = set(between)
+                    if not kinds_:
+                        yield "prog:between=nothing"
+                    elif kinds_ <= {"void"}:
+                        yield "prog:between=padding-only"
+                    elif kinds_ <= {"c", "d", "b"}:
+                        yield "prog:between=constants/comments-only"
+                    elif "field" in kinds_ and "void" in kinds_:
+                        yield "prog:between=fields+padding"
+                    elif "field" in kinds_:
+                        yield "prog:between=fields"
+                    else:
+                        yield "prog:between=padding+constants"
+                last = ch
+                between = []
+            elif ch == "f":
+                between.append("void" if fs[i][0] == "void" else "field")
+                i += 1
+            else:
+                between.append(ch)
+
+
+def pool_features(pool):
+    yield "class:pool-" + pool["mode"]
+    yield "pool:style=" + pool["style"]
+    yield "pool:defs=%d" % len(pool["defs"])
+    yield "pool:steps=%s" % (len(pool["script"]) // 4 * 4)
+    if pool["probe"]:
+        yield "pool:offset-printed-in-definition"
+    defs = pool["defs"]
+
+    def refs_in(t):
+        if t[0] == "ref":
+            yield t[1]
+        elif t[0] in ("farr", "varr", "delim"):
+            yield from refs_in(t[1])
+        elif t[0] in ("struct", "union"):
+            for f in t[1]:
+                yield from refs_in(f)
+    users: dict = {}
+    for i, d in enumerate(defs):
+        for r in set(refs_in(d)):
+            users.setdefault(r, set()).add(i)
+    if any(len(u) >= 2 for u in users.values()):
+        yield "pool:object-shared-by-2+-definitions"
+    if users:
+        yield "pool:has-shared-object"
+    seen_expanded: set = set()
+    first_touch: dict = {}
+    for n, (pth, q) in enumerate(pool["script"]):
+        yield "sq:" + q[0]
+        yield "target:" + ("definition" if len(pth) == 1 else "member")
+        first_touch.setdefault(pth[0], n)
+        if q[0] in ("expand", "xoffsets"):
+            # a member / used definition expanded after one of its users was expanded
+            if len(pth) > 1 and (pth[0],) in seen_expanded:
+                yield "pool:member-expanded-after-aggregate"
+            if len(pth) == 1 and any((u,) in seen_expanded for u in users.get(pth[0], ())):
+                yield "pool:used-definition-expanded-after-user"
+            if len(pth) == 1 and any(tuple(p) in seen_expanded for p, _ in pool["script"][:n] if len(p) > 1 and p[0] == pth[0]):
+                yield "pool:aggregate-expanded-after-member"
+            seen_expanded.add(tuple(pth))
+    if pool["mode"] == "ctor" and any(n > 0 and any(r in first_touch and first_touch[r] < n for r in set(refs_in(defs[i]))) for i, n in first_touch.items()):
+        yield "pool:type-built-on-already-queried-object"
 
 
 def nested_arrays(t) -> bool:
@@ -921,6 +1559,22 @@ def make_queries_for_shrunk(t, qs):
             continue
         if k == "intrinsic":
             if st[0] not in ("struct", "union", "delim") or q[1] > nf:
+                continue
+        if k == "prog":
+            if st[0] not in ("struct", "union", "delim") or nested_arrays(st):
+                continue
+            is_union, fs1 = section_of(st)
+            if q[1].count("f") != len(fs1):
+                # keep the statements, re-place the (fewer) fields: drop the surplus field statements from the end
+                plan, surplus = list(q[1]), q[1].count("f") - len(fs1)
+                if surplus < 0:
+                    continue
+                for c in range(len(plan) - 1, -1, -1):
+                    if surplus and plan[c] == "f":
+                        del plan[c]
+                        surplus -= 1
+                q = ["prog", "".join(plan)] + q[2:]
+            if is_union and "f" in q[1][min([q[1].index(c) for c in PROBE_CHARS if c in q[1]] or [len(q[1])]):]:
                 continue
         if k == "svc_intrinsic":
             inner1 = st[1] if st[0] == "delim" else st
